@@ -112,7 +112,7 @@ def check(rep, tier, seed):
         "stats": stats,
         "correspondence": {"cases": sum(1 for s in sess if s["modelled"]), "mismatches": len(mism)},
         "oracle_on_impl": {"cases": len(sess), "failures": len(bad)},
-        "modelled_commands": sorted(E._NAMES[:40]),
+        "modelled_commands": sorted(E.modelled_names()),
         "exhaustive": False,
     })
     rep.assumptions += ["a kill that removes nothing leaves the ring alone (the following yank inserts the previous kill); the statement is read for kills that remove text"]
